@@ -19,7 +19,7 @@ inductive YKw where
   | none
   | ext
   | kw (k : Bytes)
-  deriving Repr, DecidableEq, BEq, Inhabited
+  deriving Repr, DecidableEq, Inhabited
 
 /-- `struct lysp_stmt`: `stmt` (element / statement name as written), `kw`, `arg`, `flags`, `child` list -/
 inductive YStmt where
